@@ -191,10 +191,10 @@ class MethodCallMessage (DBusMessage):
 
         marshal.validateMemberName(member)
 
-        if interface:
+        if interface is not None:
             marshal.validateInterfaceName(interface)
 
-        if destination:
+        if destination is not None:
             marshal.validateBusName(destination)
 
         if path == '/org/freedesktop/DBus/Local':
@@ -237,7 +237,7 @@ class MethodReturnMessage (DBusMessage):
         @param body: C{list} of python objects to encode. Objects must match
                      the C{self.signature}
         """
-        if destination:
+        if destination is not None:
             marshal.validateBusName(destination)
 
         self.reply_serial = marshal.UInt32(reply_serial)
@@ -274,7 +274,7 @@ class ErrorMessage (DBusMessage):
                      the C{self.signature}
         @param sender: C{str} name of the originating Bus connection
         """
-        if destination:
+        if destination is not None:
             marshal.validateBusName(destination)
 
         marshal.validateInterfaceName(error_name)
@@ -319,7 +319,7 @@ class SignalMessage (DBusMessage):
         marshal.validateMemberName(member)
         marshal.validateInterfaceName(interface)
 
-        if destination:
+        if destination is not None:
             marshal.validateBusName(destination)
 
         self.path = path
